@@ -689,7 +689,7 @@ func bitLen(x int64) int {
 
 func main() {
 	hmain.Run(&hmain.Prop{ID: "C06",
-		Rule: "exhaustive: every content over {a,b,\\n} up to the tier's length x every split into two appends (one worker pass after each) x read buffer 1..4 x (max_event_size, cut_off) in {(0,-),(2,skip),(2,cut),(3,skip),(3,cut)}; random files with lines >> buffer, empty lines, 1..5 passes, resume offsets, tail mode, buffer-aligned line ends, checkInputBytes alone; several jobs per worker.work call (shared buffers), sparse files with resume offsets beyond 2^32; histories with ticks of the real jobProvider.maintenanceJob at every position (exhaustive small scope, directed over all swept read buffer sizes, random) incl. truncation, rename and rotation; round 5: jobs made by the real addJob in every offsets_op mode / with saved offsets / through a symlink, real write notifications (truncation seen before the pass), ticks with remove_after expired, compressed (lz4) jobs resumed from saved offsets (exhaustive small scope + directed + random each), the real Pipeline.In behind the worker observed at the output (exhaustive small scope + random). Non-trivial = content has a newline (exhaustive), or newline and >= 2 passes (random), non-empty prefix (tail-mode), input longer than the limit (check-input); distinct = distinct (sub-model, case) text.",
+		Rule: "exhaustive: every content over {a,b,\\n} up to the tier's length x every split into two appends (one worker pass after each) x read buffer 1..4 x (max_event_size, cut_off) in {(0,-),(2,skip),(2,cut),(3,skip),(3,cut)}; random files with lines >> buffer, empty lines, 1..5 passes, resume offsets, tail mode, buffer-aligned line ends, checkInputBytes alone; several jobs per worker.work call (shared buffers), sparse files with resume offsets beyond 2^32; histories with ticks of the real jobProvider.maintenanceJob at every position (exhaustive small scope, directed over all swept read buffer sizes, random) incl. truncation, rename and rotation; round 5: jobs made by the real addJob in every offsets_op mode / with saved offsets / through a symlink, real write notifications (truncation seen before the pass), ticks with remove_after expired, compressed (lz4) jobs resumed from saved offsets (exhaustive small scope + directed + random each), the real Pipeline.In behind the worker observed at the output (exhaustive small scope + random); the real file Plugin (PassEvent, Commit) as the input of that pipeline with a job resumed from the saved offsets of 2..3 streams, json / cri lines, plain and lz4 files (exhaustive small scope over stream assignments x saved-offset tables, random, directed lz4). Non-trivial = content has a newline (exhaustive), or newline and >= 2 passes (random), non-empty prefix (tail-mode), input longer than the limit (check-input); distinct = distinct (sub-model, case) text.",
 		Gen:  c06Gen, Exec: c06Exec})
 	if c06Dir != "" {
 		os.RemoveAll(c06Dir) // also after -replay
